@@ -15,6 +15,12 @@ def norm(lines):
         m = re.match(r"^(n \d+ panic)\b", l)
         if m:
             l = m.group(1)
+        # a replayed schedule that names a task which is not enabled: the scheduler says
+        # "aborted schedule names task T which is not enabled (enabled [..]) at step N",
+        # the model says "stuck T [..]"
+        m = re.match(r"^aborted schedule names task (\d+) which is not enabled \(enabled (\[[^\]]*\])\)", l)
+        if m:
+            l = "stuck %s %s" % (m.group(1), m.group(2))
         out.append(l)
     return out
 
